@@ -412,6 +412,19 @@ def handleP (st : Stats) (f : List String) (inp : String) : IO Stats := do
     return st
   | _ => note st "DISAGREE" true s!"kind=prog unparsable in={inp.take 200}"
 
+/-! ### H : histories of control-file edits and re-reads through qmail-send's getcontrols/regetcontrols/rewrite (c20_ctl.c) -/
+def handleH (st : Stats) (f : List String) (inp : String) : IO Stats := do
+  match f with
+  | _chunk :: _events :: ":" :: results :: rest =>
+    let mut st := st.bump "H"
+    let rs := results.splitOn ","
+    if rs.contains "h0" then st := st.bump "H.reread-failed"
+    if rs.contains "g0" then st := st.bump "H.start-failed"
+    if rest.getLast? != some "inv=1" then
+      st ← note st "ORACLE" false s!"kind=ctl-history in={inp} shadow={rest.headD "?"} tables-in-force-differ-from-a-fresh-start-on-the-same-configuration(stale-or-dangling-lookup-table)"
+    return st
+  | _ => note st "DISAGREE" true s!"kind=ctl-history unparsable in={inp.take 300}"
+
 def handle (st : Stats) (line : String) : IO Stats := do
   let f := fields line
   match f with
@@ -436,6 +449,7 @@ def handle (st : Stats) (line : String) : IO Stats := do
     | "P" => handleP st rest inp
     | "R" => handleR st rest inp
     | "F" => handleF st rest inp
+    | "H" => handleH st rest inp
     | "X" =>
       -- c20_parse.c prints its X lines without the leading T of the case: put it back so that the case can be replayed
       let cs := rest.dropLast
